@@ -210,3 +210,27 @@ V("c18-preserving-tolist", "C18", "silent",
 V("c18-preserving-new-instruction", "C18", "silent",
   (GATES, "class Kerr(Gate):", "class Kerr2(Gate):\n    NUMBER_OF_MODES = 1\n\n    def __init__(self, xi: float, order: int = 2) -> None:\n        super().__init__(params=dict(xi=xi, order=order))\n\n\nclass Kerr(Gate):"),
   ("piquasso/__init__.py", "    Kerr,\n    CrossKerr,", "    Kerr,\n    Kerr2,\n    CrossKerr,"))
+
+# ------------------------------------------------------------------------------------------- C03
+UTILS = "piquasso/_utils.py"
+V("c03-float-frequency", "C03", {"rule": "C03a", "contains": "frequency"},
+  (UTILS, "        sample: Fraction(multiplicity, shots)", "        sample: multiplicity / shots"))
+V("c03-fraction-of-float", "C03", {"rule": "C03a", "contains": "frequency"},
+  (UTILS, "        sample: Fraction(multiplicity, shots)", "        sample: Fraction(multiplicity / shots)"))
+V("c03-count-as-frequency", "C03", {"rule": "C03a", "contains": "multiplicity"},
+  ("piquasso/_simulators/passive/simulation_steps.py", "        Branch(state=None, outcome=outcome, frequency=Fraction(multiplicity, shots))", "        Branch(state=None, outcome=outcome, frequency=multiplicity)"))
+V("c03-budget-via-float", "C03", {"rule": "C03a", "contains": "int("},
+  (SIMF, "int(branch.frequency * shots) if shots is not None else None", "int(float(branch.frequency) * shots) if shots is not None else None"))
+V("c03-chain-rule-add", "C03", {"rule": "C03a", "contains": "frequency"},
+  (SIMF, "                subbranch.frequency *= branch.frequency", "                subbranch.frequency += branch.frequency"))
+V("c03-result-counts-float", "C03", {"rule": "C03a", "contains": "int("},
+  ("piquasso/api/result.py", "            ret[branch.outcome] = int(branch.frequency * shots)", "            ret[branch.outcome] = int(float(branch.frequency) * shots)"))
+V("c03-imperfect-float", "C03", {"rule": "C03a", "contains": "frequency"},
+  ("piquasso/_simulators/simulation_steps.py", "        outcome: Fraction(count, shots)\n", "        outcome: count / shots\n"))
+V("c03-shots-none-range", "C03", {"rule": "C03b", "contains": "shots"},
+  ("piquasso/_simulators/passive/simulation_steps.py", "    if shots is None:\n        if marginal_sampling:", "    budget = shots * 2\n    if shots is None:\n        if marginal_sampling:"))
+V("c03-preserving-fraction-product", "C03", "silent",
+  (UTILS, "        sample: Fraction(multiplicity, shots)", "        sample: Fraction(multiplicity, 1) * Fraction(1, shots)"))
+V("c03-preserving-none-test-flipped", "C03", "silent",
+  (UTILS, "    if shots is None:\n        return {\n            sample: probability\n            for sample, probability in probability_map.items()\n            if not np.isclose(probability, 0.0)\n        }\n",
+   "    if not (shots is not None):\n        return {\n            sample: probability\n            for sample, probability in probability_map.items()\n            if not np.isclose(probability, 0.0)\n        }\n"))
